@@ -32,12 +32,14 @@ def analyse(prop: str, root: str, tier: str, quiet: bool = False, overlay=None):
         mod.run(rep)
         code = rep.finish()
     except AnalysisError as exc:
-        rep.finish()
+        code = rep.finish()
+        tag = "ANALYSIS-NOTE" if code == 1 else "ANALYSIS-ERROR"
         if not quiet:
-            print(f"ANALYSIS-ERROR property={prop} {exc}")
-        rep.result["code"] = 2
-        rep.result.setdefault("lines", []).append(f"ANALYSIS-ERROR property={prop} {exc}")
-        code = 2
+            print(f"{tag} property={prop} {exc}")
+        rep.result.setdefault("lines", []).append(f"{tag} property={prop} {exc}")
+        if code != 1:
+            code = 2
+        rep.result["code"] = code
     return code, rep, mod
 
 
